@@ -38,6 +38,9 @@ mod tests;
 /// Parser for textual representation of these problems.
 pub mod textual;
 mod vector;
+/// Read-only wrappers and a trace sink used by external verification tooling.
+#[cfg(feature = "verif-hooks")]
+pub mod verif_hooks;
 mod warnings;
 
 const EPSILON: f64 = 1e-4;
